@@ -149,7 +149,7 @@ var (
 		{"MMM", "Jan", "[A-Z][a-z]{2}"},
 		{"MM", "01", "[0-3]\\d"},
 		{"M", "1", "\\d{1,2}"},
-		{"DDDD", "Monday", "[A-Z][a-z]{5,7}"},
+		{"DDDD", "Monday", "[A-Z][a-z]{5,8}"},
 		{"DDD", "Mon", "[A-Z][a-z]{2}"},
 		{"DD", "02", "\\d{2}"},
 		{"_D", "_2", "(?: \\d{1}|\\d{2})"},
